@@ -7,12 +7,19 @@
   (c16 d.sub d k|(L k*)) (c16 d.and d k|(L k*)) (c16 d.getl d (L k*)) (c16 d.gett d (T k*)) (c16 d.get d k)
   (c16 d.add d (D ..)) (c16 d.relabel d (D (old S:new)*)) (c16 d.keys d)       d = (DC <cls> (hexkey v)*)
   (c16 call (D (k I:n)*) (K hexkey I:n | (F I:c hexarg*))*)             keyword order = list order
+  dictattr histories over a second heap of handles (PygModel/DAHeap.lean); a new object gets the next index:
+  (c16 h.new (DC cls (hexkey v)*)) (c16 h.copy h) (c16 h.sub h k|(L k*)) (c16 h.and h k|(L k*)) (c16 h.add h (D ..))
+  (c16 h.addh h g) (c16 h.getl h (L k*)) (c16 h.relabel h (D (old S:new)*))          reply: the new object
+  (c16 h.set h k v) (c16 h.setattr h k v) (c16 h.del h k) (c16 h.delattr h k)       in place; reply: the target afterwards
+  (c16 h.get h k) (c16 h.getattr h k) (c16 h.gett h (T k*)) (c16 h.keys h)           reads
+  (c16 h.dump)                                                                       reply: `(H d0 d1 …)`, the whole heap
 
   ulist elements are canonicalised (`int n` ↦ `flt 4n`, recursively) so that decidable equality of `Val`
   is python `==` on the generated elements (no bools, no NaN).
 -/
 import PygModel.USet
 import PygModel.DictCall
+import PygModel.DAHeap
 
 namespace Pyg.USetDriver
 open Pyg
@@ -32,8 +39,8 @@ mutual
     | (k, v) :: kvs => (k, canonV v) :: canonKV kvs
 end
 
-abbrev St := List (List Val)
-def init : St := []
+abbrev St := List (List Val) × List (DA.D Val)
+def init : St := ([], [])
 def modelName : String := "c16"
 
 def okList (xs : List Val) : String := "ok " ++ (Val.list xs).render
@@ -43,7 +50,7 @@ def elems (s : Sexp) : Option (List Val) := do
   | .list xs => pure (xs.map canonV)
   | _ => Option.none
 
-def push (s : St) (u : List Val) : Option (St × String) := some (s ++ [u], okList u)
+def push (s : St) (u : List Val) : Option (St × String) := some ((s.1 ++ [u], s.2), okList u)
 
 def strOf : Sexp → Option String
   | .atom a => match Cell.parse a with
@@ -99,26 +106,41 @@ def intEnv : Sexp → Option (List (String × Int))
       | _ => Option.none
   | _ => Option.none
 
+/-- one operation of a dictattr history; every handle it mentions must exist (else `bad-op`) -/
+def heapOp (s : St) (op : DAHeap.Op Val) (hs : List Nat) : Option (St × String) := do
+  for h in hs do
+    let _ ← s.2[h]?
+  match DAHeap.step s.2 op with
+  | .error e => some (s, "err " ++ e.render)
+  | .ok (heap, out) =>
+    let reply ← match out with
+      | .obj _ d => some (daRender d)
+      | .unit => do pure (daRender (← heap[← op.target]?))
+      | .val v => some v.render
+      | .vals vs => some (Val.list vs).render
+      | .keys ks => some (Val.list (ks.map fun k => .cell (.str k))).render
+    some ((s.1, heap), "ok " ++ reply)
+
 def handle (s : St) (op : String) (args : List Sexp) : Option (St × String) := do
   let pure1 (r : String) : Option (St × String) := some (s, r)
   match op, args with
   | "u.new", [xs] => push s (USet.mk (← elems xs))
-  | "u.copy", [h] => push s (USet.copy (← s[← h.toNat?]?))
-  | "u.addh", [h, g] => push s (USet.addList (← s[← h.toNat?]?) (← s[← g.toNat?]?))
-  | "u.andh", [h, g] => push s (USet.andList (← s[← h.toNat?]?) (← s[← g.toNat?]?))
-  | "u.subh", [h, g] => push s (USet.subList (← s[← h.toNat?]?) (← s[← g.toNat?]?))
+  | "u.copy", [h] => push s (USet.copy (← s.1[← h.toNat?]?))
+  | "u.addh", [h, g] => push s (USet.addList (← s.1[← h.toNat?]?) (← s.1[← g.toNat?]?))
+  | "u.andh", [h, g] => push s (USet.andList (← s.1[← h.toNat?]?) (← s.1[← g.toNat?]?))
+  | "u.subh", [h, g] => push s (USet.subList (← s.1[← h.toNat?]?) (← s.1[← g.toNat?]?))
   | "u.add", [h, x] =>
-      let u ← s[← h.toNat?]?
+      let u ← s.1[← h.toNat?]?
       match ← Val.ofSexp x with
       | .list xs => push s (USet.addList u (xs.map canonV))
       | e => push s (USet.addElem u (canonV e))
   | "u.and", [h, x] =>
-      let u ← s[← h.toNat?]?
+      let u ← s.1[← h.toNat?]?
       match ← Val.ofSexp x with
       | .list xs => push s (USet.andList u (xs.map canonV))
       | e => push s (USet.andElem u (canonV e))
   | "u.sub", [h, x] =>
-      let u ← s[← h.toNat?]?
+      let u ← s.1[← h.toNat?]?
       match ← Val.ofSexp x with
       | .list xs => push s (USet.subList u (xs.map canonV))
       | e => push s (USet.subElem u (canonV e))
@@ -138,6 +160,32 @@ def handle (s : St) (op : String) (args : List Sexp) : Option (St × String) := 
         | _ => Option.none
       pure1 ("ok " ++ daRender (DA.relabel (← daOf d) m))
   | "d.keys", [d] => pure1 (okList ((DA.keys (← daOf d)).map fun k => .cell (.str k)))
+  | "h.new", [d] => let d ← daOf d; heapOp s (.new d.cls d.items) []
+  | "h.copy", [h] => let h ← h.toNat?; heapOp s (.copy h) [h]
+  | "h.sub", [h, k] =>
+      let h ← h.toNat?
+      match k with
+      | .node (.atom "L" :: _) => heapOp s (.subKs h (← strsOf k)) [h]
+      | _ => heapOp s (.subK h (← strOf k)) [h]
+  | "h.and", [h, k] => let h ← h.toNat?; heapOp s (.andKs h (← strsOf k)) [h]
+  | "h.add", [h, o] => let h ← h.toNat?; heapOp s (.add h (← daOf o).items) [h]
+  | "h.addh", [h, g] => let h ← h.toNat?; let g ← g.toNat?; heapOp s (.addH h g) [h, g]
+  | "h.getl", [h, k] => let h ← h.toNat?; heapOp s (.getL h (← strsOf k)) [h]
+  | "h.relabel", [h, m] =>
+      let h ← h.toNat?
+      let m ← (← daOf m).items.mapM fun (k, v) => match v with
+        | .cell (.str s) => some (k, s)
+        | _ => Option.none
+      heapOp s (.relabel h m) [h]
+  | "h.set", [h, k, v] => let h ← h.toNat?; heapOp s (.setItem h (← strOf k) (← Val.ofSexp v)) [h]
+  | "h.setattr", [h, k, v] => let h ← h.toNat?; heapOp s (.setAttr h (← strOf k) (← Val.ofSexp v)) [h]
+  | "h.del", [h, k] => let h ← h.toNat?; heapOp s (.delItem h (← strOf k)) [h]
+  | "h.delattr", [h, k] => let h ← h.toNat?; heapOp s (.delAttr h (← strOf k)) [h]
+  | "h.get", [h, k] => let h ← h.toNat?; heapOp s (.getItem h (← strOf k)) [h]
+  | "h.getattr", [h, k] => let h ← h.toNat?; heapOp s (.getAttr h (← strOf k)) [h]
+  | "h.gett", [h, k] => let h ← h.toNat?; heapOp s (.getT h (← strsOf k)) [h]
+  | "h.keys", [h] => let h ← h.toNat?; heapOp s (.keys h) [h]
+  | "h.dump", [] => pure1 ("ok (H" ++ String.join (s.2.map fun d => " " ++ daRender d) ++ ")")
   | "call", d :: kws =>
       let d ← intEnv d
       let kws ← kws.mapM kwOf
